@@ -722,7 +722,7 @@ def run_unit(cdef, config=None, callee_contracts=None):
             rec = ObRecord(ob)
             rec.status, rec.detail = 'unknown', 'unit time budget exhausted'
         else:
-            rec = discharge(ob)
+            rec = discharge(ob, pc.options.get('timeout_ms'))
         if rec.status == 'unknown':
             n_unknown += 1
         seen[k] = rec
